@@ -181,6 +181,24 @@ class MovingRunner(hh.Runner):
                 judge(it, trie, model, RefTrie(model), self.rnd, self.ctx, max_queries=6)
             except Violation as v:
                 raise Violation(v.monitor, where + "after queries that failed on a temporarily incomplete database: " + v.detail)
+        if trie is self.trie and not self.prune and len(self.roots) >= 1 and self.rnd.random() < 0.3:
+            # two walks over two VERSIONS of the trie on one database, consumed alternately
+            import itertools
+
+            from trie import HexaryTrie as _HT
+
+            old_root, old_model = self.rnd.choice(self.roots)
+            a, b = NodeIterator(_HT(self.db if not hasattr(self.db, "d") else self.db.d, old_root)), NodeIterator(trie)
+            pa, pb = [], []
+            for x, y in cut(lambda: list(itertools.zip_longest(a.items(), b.items()))):
+                if x is not None:
+                    pa.append(x)
+                if y is not None:
+                    pb.append(y)
+            if pa != sorted(old_model.items()) or pb != sorted(model.items()):
+                raise Violation("iter-interleaved", where + "two walks over two versions of the trie, consumed alternately, yield %d and %d pairs (contents %d and %d)" % (
+                    len(pa), len(pb), len(old_model), len(model)))
+            self.ctx.count("two_version_walks_interleaved")
         if self.rnd.random() < 0.3:
             # the consumer edits, in place, the node bodies it was handed (they are its own):
             # the iterator must not be holding on to them
